@@ -29,6 +29,8 @@ BadTriples == {t \in AU0 \X AU0 \X AU0 : PathLt(t[1], t[2], "coded") /\ PathLt(t
 BadPairs == {t \in AU0 \X AU0 : t[1] # t[2] /\ ~PathLt(t[1], t[2], "coded") /\ ~PathLt(t[2], t[1], "coded")}
 TraverseModel == \A v \in ValU0 : VisitLogOK(v, Visits(v))
 FlattenModel == \A v \in ValU0 : InFlattenDomain(v) => Canonicalize(Flatten(v)) = v
+\* ... whatever the order of the flattened entries (the path-keyed form is a mapping)
+FlattenOrderModel == \A v \in ValU0 : InFlattenDomain(v) => SameValue(v, Canonicalize(Reverse(Flatten(v))))
 FlattenPathsModel == \A v \in ValU0 : \A i \in 1..Len(Flatten(v)) :
                         Parse(Format(Flatten(v)[i].p)) = [ok |-> TRUE, keys |-> Flatten(v)[i].p]
 
@@ -37,10 +39,11 @@ ASSUME PrintT(<<"model", "AlgebraModel", AlgebraModel>>)
 ASSUME PrintT(<<"model", "OrderIntended", OrderIntended>>)
 ASSUME PrintT(<<"model", "TraverseModel", TraverseModel>>)
 ASSUME PrintT(<<"model", "FlattenModel", FlattenModel>>)
+ASSUME PrintT(<<"model", "FlattenOrderModel", FlattenOrderModel>>)
 ASSUME PrintT(<<"model", "FlattenPathsModel", FlattenPathsModel>>)
 ASSUME PrintT(<<"design", "coded_order_intransitive_triples", Cardinality(BadTriples),
                 "coded_order_incomparable_pairs", Cardinality(BadPairs)>>)
-ASSUME AlgebraModel /\ OrderIntended /\ TraverseModel /\ FlattenModel /\ FlattenPathsModel
+ASSUME AlgebraModel /\ OrderIntended /\ TraverseModel /\ FlattenModel /\ FlattenOrderModel /\ FlattenPathsModel
 
 \* ---- export ---------------------------------------------------------------
 StrSeq == SetToSeq(StrU0)
